@@ -12,6 +12,7 @@ CONSTANTS Keys = {"a", "b"}
           DialSet = {"ok", "fail"}
           AllowClose = TRUE
           D = 4
+          Ops = {"Call", "Emit", "Dial", "End", "Cancel", "Drain", "Tick", "Close"}
           CV = 4
 INVARIANTS Confluent
 CHECK_DEADLOCK FALSE
